@@ -5,6 +5,7 @@
 // pushed through all operations the property names.
 #include "vata_util.hh"
 #include "gen.hh"
+#include <memory>
 
 using namespace vu;
 using gen::numbering;
@@ -137,6 +138,50 @@ static void caseC15(uint64_t idx, vh::Rng& g)
 }
 
 // ======================================================================= C05
+// one Reduce() of A judged against the reference automaton a
+static bool reduceOnce(Aut& A, const RTA& a, const Alpha& al, CaseAlphabet& ca, const char* stage)
+{
+	std::string k = std::string("C05") + stage;
+	R->phase(std::string("Reduce") + stage);
+	Aut r = A.Reduce(); RTA rr = readExpl(r, &ca);
+	rm::Joint J = rm::jointReach({&a, &rr}, al);
+	if (J.capped) { R->inconclusive("rm-cap"); return false; }
+	for (auto& m : J.reach) if (J.acc(m, 0) != J.acc(m, 1)) { R->violation(k + "/language", "Reduce changed the language"); return false; }
+	std::set<St> sa = a.states(), sr = rr.states();
+	if (sr.size() > sa.size()) R->violation(k + "/more-states", vh::str(sr.size()) + " > " + vh::str(sa.size()));
+	if (rr.rules.size() > a.rules.size()) R->violation(k + "/more-rules", vh::str(rr.rules.size()) + " > " + vh::str(a.rules.size()));
+	if (sr.size() < sa.size()) R->count("reduced-states");
+	for (St s : sr) if (!sa.count(s))
+	{	// not a state of A: accept it if some state of A has the same per-state language
+		R->count("state-not-in-A");
+		bool found = false; int bs = J.bit[1][s];
+		for (St q : sa)
+		{
+			int bq = J.bit[0][q]; bool same = true;
+			for (auto& m : J.reach) if (((m[1] >> bs) & 1) != ((m[0] >> bq) & 1)) { same = false; break; }
+			if (same) { found = true; break; }
+		}
+		if (!found) { R->violation(k + "/state-not-an-image", "state " + vh::str(s) + " of the result corresponds to no state of the input"); break; }
+	}
+	if (readExpl(A, &ca) != a) { R->violation(k + "/operand-changed", ""); return false; }
+	return true;
+}
+
+// in-place mutation of a live automaton object (and of its reference): a rule over existing
+// states, or a final-state change — the object keeps its identity, storage and history
+static void mutateInPlace(vh::Rng& g, const Alpha& al, Aut& A, RTA& a, CaseAlphabet& ca)
+{
+	std::set<St> ss = a.states(); std::vector<St> st(ss.begin(), ss.end()); if (st.empty()) st.push_back(0);
+	int k = static_cast<int>(g.below(5));
+	if (k == 0) { St f = st[g.below(st.size())]; A.SetStateFinal(f); a.fin.insert(f); }
+	else if (k == 1 && g.chance(1, 2)) { A.EraseFinalStates(); a.fin.clear(); St f = st[g.below(st.size())]; A.SetStateFinal(f); a.fin.insert(f); }
+	else
+	{
+		RTA e = gen::randTA(g, al, st, g.range(1, 2), 0);
+		for (auto& r : e.rules) { std::vector<size_t> ch(r.ch.begin(), r.ch.end()); A.AddTransition(ch, ca.num[r.sym], r.par); a.rules.insert(r); }
+	}
+}
+
 static void caseC05(uint64_t idx, vh::Rng& g)
 {
 	Alpha al; RTA a; std::string kind; genSingle(idx, g, al, a, kind, 7, 14);
@@ -157,28 +202,18 @@ static void caseC05(uint64_t idx, vh::Rng& g)
 	}
 	try
 	{
-		R->phase("Reduce");
-		Aut r = A.Reduce(); RTA rr = readExpl(r, &ca);
-		rm::Joint J = rm::jointReach({&a, &rr}, al);
-		if (J.capped) { R->inconclusive("rm-cap"); return; }
-		for (auto& m : J.reach) if (J.acc(m, 0) != J.acc(m, 1)) { R->violation("C05/language", "Reduce changed the language"); break; }
-		std::set<St> sa = a.states(), sr = rr.states();
-		if (sr.size() > sa.size()) R->violation("C05/more-states", vh::str(sr.size()) + " > " + vh::str(sa.size()));
-		if (rr.rules.size() > a.rules.size()) R->violation("C05/more-rules", vh::str(rr.rules.size()) + " > " + vh::str(a.rules.size()));
-		if (sr.size() < sa.size()) R->count("reduced-states");
-		for (St s : sr) if (!sa.count(s))
-		{	// not a state of A: accept it if some state of A has the same per-state language
-			R->count("state-not-in-A");
-			bool found = false; int bs = J.bit[1][s];
-			for (St q : sa)
+		if (!reduceOnce(A, a, al, ca, "")) return;
+		// the same OBJECT again after it was modified in place (a third of the cases, up to 3 rounds):
+		// Reduce must judge the automaton as it is now, not as it was when it was reduced before
+		if (g.chance(1, 3))
+		{
+			std::unique_ptr<Aut> copy; if (g.chance(1, 3)) copy.reset(new Aut(A));   // sometimes a live copy shares the storage
+			for (int round = 0; round < 3; ++round)
 			{
-				int bq = J.bit[0][q]; bool same = true;
-				for (auto& m : J.reach) if (((m[1] >> bs) & 1) != ((m[0] >> bq) & 1)) { same = false; break; }
-				if (same) { found = true; break; }
+				mutateInPlace(g, al, A, a, ca); R->desc(caseText(al, a) + "(reduced, then modified in place, round " + vh::str(round) + ")"); R->count("reduce-after-in-place-mutation");
+				if (!reduceOnce(A, a, al, ca, "/after-in-place-mutation")) return;
 			}
-			if (!found) { R->violation("C05/state-not-an-image", "state " + vh::str(s) + " of the result corresponds to no state of the input"); break; }
 		}
-		if (readExpl(A, &ca) != a) R->violation("C05/operand-changed", "");
 	}
 	catch (std::exception& ex) { R->violation("C05/exception", ex.what()); }
 }
@@ -470,6 +505,6 @@ int main(int argc, char** argv)
 	else if (run.prop == "C06") fn = caseC06; else if (run.prop == "C14") fn = caseC14; else if (run.prop == "C15") fn = caseC15;
 	else { fprintf(stderr, "mon_ops: unknown property %s\n", run.prop.c_str()); return 2; }
 	uint64_t idx;
-	while (run.next(idx)) { vh::Rng g = run.rng(idx); fn(idx, g); }
+	while (run.next(idx)) { vh::Rng g = run.rng(idx); vu::insertionRng() = &g; fn(idx, g); }
 	return run.finish();
 }
